@@ -321,6 +321,58 @@ theorem bcast_local_delivery (ser : String → List Nat) (lf : String) (ops : Li
   | none => simp [pushMsg]
   | some l => simp
 
+/-- **Exactly the addressed front-end.**  After any history, of the tuples a broadcast
+hands to `impls.PushMessageByIds` on the service `lf`:
+* nothing is sent onward for `lf` itself nor for a service the directory does not know;
+* every other known front-end `f` is sent exactly one `sys.pushmsg` if it has a group in
+  the channel — carrying exactly that group's id list, the broadcast's route and message —
+  and none otherwise;
+* the connections of any other front-end service `b` receive exactly the listed ids of
+  (c, b) that are live **on b** (whatever the live sets of other front-ends, which may use
+  the same connection numbers), and nothing if `b` is the issuer or unknown. -/
+theorem push_reaches_only_the_addressed_front (ser : String → List Nat) (lf : String) (ops : List Op)
+    (c route msg : String) (ps : List Push) (dl : List Delivery) (dir : List String)
+    (h : bcastObs ser lf ops c route msg = .pushes ps dl) :
+    (∀ f, (f = lf ∨ f ∉ dir) → (forwarded lf dir ps).filter (fun p => decide (p.front = f)) = []) ∧
+    (∀ f, f ≠ lf → f ∈ dir → (forwarded lf dir ps).filter (fun p => decide (p.front = f)) =
+        match members ops c f with
+        | none => []
+        | some l => [⟨f, l, route, msg⟩]) ∧
+    (∀ b blive, remoteDeliveries ser b blive (forwarded lf dir ps) =
+        if b ≠ lf ∧ b ∈ dir then pushMsg blive (listed ops c b) route (ser msg) else []) := by
+  obtain ⟨hnil, hsome⟩ := broadcast_lists_current_members ser lf ops c route msg
+  have hex : chanExists ops c = true := by
+    cases hce : chanExists ops c with
+    | true => rfl
+    | false => rw [hnil hce] at h; cases h
+  obtain ⟨ps', dl', hobs, hfil⟩ := hsome hex
+  rw [hobs] at h
+  injection h with hps hdl
+  subst hps
+  have hff : ∀ f, (forwarded lf dir ps').filter (fun p => decide (p.front = f))
+      = if (decide (f ≠ lf) && decide (f ∈ dir)) then ps'.filter (fun p => decide (p.front = f)) else [] :=
+    fun f => filter_front_of_filter ps' f (fun x => decide (x ≠ lf) && decide (x ∈ dir))
+  refine ⟨?_, ?_, ?_⟩
+  · intro f hf
+    rw [hff]
+    rcases hf with hf | hf <;> simp [hf]
+  · intro f h1 h2
+    rw [hff, hfil f]
+    simp [h1, h2]
+  · intro b blive
+    unfold remoteDeliveries
+    rw [flatMap_front, hff, hfil b]
+    unfold listed
+    by_cases hb : b ≠ lf ∧ b ∈ dir
+    · obtain ⟨hb1, hb2⟩ := hb
+      cases members ops c b <;> simp [hb1, hb2, pushMsg]
+    · have : (decide (b ≠ lf) && decide (b ∈ dir)) = false := by
+        by_cases h1 : b = lf
+        · simp [h1]
+        · have h2 : b ∉ dir := fun hh => hb ⟨h1, hh⟩
+          simp [h2]
+      rw [this]; simp [hb]
+
 /-- session ids handed out by the front-end are fresh as long as the 32-bit counter
 has not wrapped: the new id is not among the live ones -/
 theorem session_id_fresh (fr : Front) (h : fr.nextId + 1 < 2 ^ 32) (hb : ∀ x ∈ fr.live, x ≤ fr.nextId) :
@@ -359,6 +411,14 @@ example : chanExists demo "a" = true ∧ chanExists demo "zz" = false ∧
 
 example : tally demo "a" "f1" 2 = ⟨2, 1⟩ ∧ joinSeq demo "a" "f1" = [2, 3, 2] ∧
     (tally demo "a" "f2" 7).adds = (tally demo "a" "f2" 7).left ∧ (tally demo "a" "f1" 5).adds = (tally demo "a" "f1" 5).left := by decide
+
+/-- the demo broadcast seen from the directory [f1, f2, f3]: one request towards f2 (whose
+group became empty), none towards f1 (local) or f3 (no group); a front-end f2 hosting the
+same connection numbers 2 and 3 receives nothing of f1's list -/
+example : forwarded "f1" ["f1", "f2", "f3"] [⟨"f1", [3, 2], "r", "m"⟩, ⟨"f2", [], "r", "m"⟩] = [⟨"f2", [], "r", "m"⟩] ∧
+    remoteDeliveries (fun _ => []) "f2" [2, 3] [⟨"f2", [], "r", "m"⟩] = [] ∧
+    remoteDeliveries (fun _ => []) "f2" [2, 3] (forwarded "f1" ["f1", "f2"] [⟨"f1", [3, 2], "r", "m"⟩, ⟨"f2", [3, 9], "r", "m"⟩])
+      = [⟨3, "r", []⟩] := by decide
 
 /-- removals at the first, middle and last position and of the only element -/
 example : removeGo [1, 2, 3, 4] 1 = [2, 3, 4] ∧ removeGo [1, 2, 3, 4] 3 = [1, 2, 4] ∧
